@@ -351,6 +351,24 @@ func NewLabOnlyMod(c *Ctx) (*probe.Lab, error) { return probe.NewLab(c.W) }
 // document, not of its spelling.
 func sugarUnits(c *Ctx, units []*probe.Unit) {
 	for i, u := range units {
+		if len(u.Files) > 0 {
+			switch i % 18 {
+			case 9:
+				// the last file saved in another encoding YAML allows (UTF-8 with BOM, UTF-16 LE/BE)
+				j := len(u.Files) - 1
+				if b, ok := ysugar.Recode(u.Files[j].Content, i/18); ok {
+					u.Files[j].Content = string(b)
+					c.Add("files_saved_as_utf8_bom_or_utf16", 1)
+				}
+			case 15:
+				// explicit document markers around the one document of a file; a trailing `---` opens a second, empty document
+				j := (i / 18) % len(u.Files)
+				if y, ok := ysugar.Markers(u.Files[j].Content, i/18); ok {
+					u.Files[j].Content = y
+					c.Add("files_with_document_markers", 1)
+				}
+			}
+		}
 		if i%6 != 5 {
 			continue
 		}
